@@ -166,3 +166,23 @@ MANIFEST_TEXT['C14'] = {'text': 'Storage-format knob (plaintext vs valid LZ4 enc
                                 'plus the decoder driven directly against a reference decoder under ASan on exact-size buffers.',
                         'design_ref': '4.7', 'note': 'only the Awami fonts can carry compressed tables (Silf >= 4.x layout, Glat 3.0); encodings and faults are sampled', 'technique': _T + 'storage-format twin + reference decoder'}
 NOT_APPLICABLE.pop('C14')
+
+MODE_FLAVOUR['concneg'] = 'tsan'
+PROPS['C09'] = {
+    'level': 'exploration',
+    'batches': [{'mode': 'concneg', 'quick': 48, 'thorough': 400, 'chunk': 8}, {'mode': 'conc', 'quick': 6000, 'thorough': 600000, 'chunk': 40}],
+    'rule': 'one run = one cold preloadAll face (+0..2 shared unhinted fonts) used by 2..4 simulated threads (ucontext fibers registered with ThreadSanitizer through its fiber API and '
+            'switched without synchronisation; the seeded scheduler preempts at instrumented basic-block edges: uniform gaps of 3..30000 edges, PCT with 1..4 priority change points, or whole-call bursts), '
+            'each running 2..12 jobs (gr_make_seg + full dump + destroy, feature values, labels, queries); oracles: no TSan report, every result equals the sequential twin bit-for-bit, no table callback; '
+            'distinct = distinct plan hash (a plan includes the scheduler kind, parameter and seed); non-trivial = more than 2 fiber switches happened; '
+            'concneg = the same workload on a lazy face, where TSan must report races (detector liveness)',
+    'require_probes': ['conc:negctl-race-reported', 'conc:switches', 'seg:returned'],
+    'assumptions': _ASSUME + ['TSan fiber API semantics (no-sync switches leave fibers unordered; fiber creation orders construction before the workers; a finishing worker synchronises with the main fiber)',
+                              'sequentially consistent interleavings only; weak-memory effects are not simulated (irrelevant for a data-race-free program)',
+                              'TSan keeps 4 accesses per 8-byte shadow cell: a race whose first access was evicted is missed in that schedule'],
+    'stub': 'table storage (SimStore), clock (edge counter), thread scheduler (SimSched fibers); no stdio, no allocation-failure injection',
+}
+MANIFEST_TEXT['C09'] = {'text': 'Seeded schedules of 2..4 simulated threads over one shared cold preloadAll face, preempted at basic-block edges, with ThreadSanitizer as the race oracle (made deterministic by the '
+                                'fiber scheduler), sequential-twin result equality and callback counters; a lazy-face negative control proves the detector is alive in every batch.',
+                        'design_ref': '4.5', 'note': 'schedules are sampled; TSan happens-before race detection over sequentially consistent interleavings', 'technique': 'deterministic simulation: seeded fiber scheduler at edge granularity + ThreadSanitizer fiber API, sequential twin as reference'}
+NOT_APPLICABLE.pop('C09')
